@@ -68,7 +68,10 @@ def cases(draw):
         # sprinkle xml:space attributes
         xml = _add_xml_space(draw, xml)
     decls = []
-    for _ in range(draw(st.integers(1, 4))):
+    if draw(st.integers(0, 2)) > 0:
+        # most cases strip broadly first, then carve out exceptions, so that something is actually stripped
+        decls.append(['strip', draw(st.sampled_from(['*', '*', 'a b c d', 'a b', 'c d p:*', '* q:*']))])
+    for _ in range(draw(st.integers(1, 3))):
         decls.append([draw(st.sampled_from(['strip', 'strip', 'preserve'])), draw(st.sampled_from(NAMETESTS))])
     imp = []
     if draw(st.integers(0, 2)) == 0:
